@@ -45,7 +45,7 @@ KERNELS = {
 NAT_KERNELS = {"_check_regular_chunks", "to_chunksize"}
 
 GEN_HEADER = r"""
-From CubedV Require Import Model.Util Model.Memory Model.Rechunk Model.Regular Model.Dag Model.FuseGuard Model.Admission Model.Resume Model.Events Proofs.FuseGuardProofs Proofs.AdmissionProofs Proofs.ResumeProofs Proofs.EventsProofs.
+From CubedV Require Import Model.Util Model.Memory Model.Rechunk Model.Regular Model.Dag Model.FuseGuard Model.Admission Model.Resume Model.Events Model.SpecCfg Proofs.SpecCfgProofs Proofs.FuseGuardProofs Proofs.AdmissionProofs Proofs.ResumeProofs Proofs.EventsProofs.
 From Gen Require Import Gen.
 Local Open Scope Z_scope.
 
@@ -153,7 +153,8 @@ OBJ_KERNELS = {
 FUSE_FIELDS = ["projected_mem", "allowed_mem", "reserved_mem", "num_tasks"]
 # the admission test (cubed/core/plan.py): strictly shaped functions, see translate_admission
 ADMISSION_KERNELS = ["Plan._find_ops_exceeding_memory", "FinalizedPlan.validate", "admission.wiring", "already_computed", "resume.wiring",
-                     "skip_node", "visit_nodes", "visit_node_generations"]
+                     "skip_node", "visit_nodes", "visit_node_generations",
+                     "Spec.__eq__", "check_array_specs"]
 
 EQUIV.update({
     "is_fuse_candidate": r"""
@@ -224,6 +225,27 @@ Corollary source_skips_only_complete : forall outs,
 Proof. intros outs. rewrite gen_already_computed_equiv. apply skipped_only_if_complete. Qed.
 """,
     "resume.wiring": "",
+    "Spec.__eq__": r"""
+Theorem gen_Spec_eq_equiv : forall a b, gen_Spec_eq a b = spec_eqb a b.
+Proof. intros. reflexivity. Qed.
+Corollary source_spec_eq_iff : forall a b, gen_Spec_eq a b = true <-> a = b.
+Proof. intros. rewrite gen_Spec_eq_equiv. apply spec_eqb_eq. Qed.
+""",
+    "check_array_specs": r"""
+Theorem gen_check_array_specs_equiv : forall specs, gen_check_array_specs specs = SpecCfg.check_array_specs specs.
+Proof.
+  intros [|s0 specs]; [reflexivity|]. unfold gen_check_array_specs, SpecCfg.check_array_specs.
+  change (fun s => gen_Spec_eq s0 s) with (spec_eqb s0). destruct (forallb (spec_eqb s0) (s0 :: specs)); reflexivity.
+Qed.
+(* the source accepts a list of specs iff they are all equal, and then returns that spec *)
+Corollary source_mixed_specs_rejected : forall specs,
+  match gen_check_array_specs specs with
+  | Some (Some s) => forall x, In x specs -> x = s
+  | Some None => specs = []
+  | None => exists x y, In x specs /\ In y specs /\ x <> y
+  end.
+Proof. intros specs. rewrite gen_check_array_specs_equiv. apply check_array_specs_spec. Qed.
+""",
     "skip_node": r"""
 Theorem gen_skip_node_spec : forall hp c, gen_skip_node hp c = negb hp || c.
 Proof. intros [|] [|]; reflexivity. Qed.
@@ -249,6 +271,7 @@ Corollary source_par_barrier : forall nodes edges gens is_op skip (ntasks : nat 
 Proof. intros until inter. rewrite gen_visit_node_generations_equiv. apply par_barrier. Qed.
 """,
 })
+DEPS.update({"check_array_specs": ["Spec.__eq__"]})
 DEPS.update({"FinalizedPlan.validate": ["Plan._find_ops_exceeding_memory"], "admission.wiring": [], "resume.wiring": []})
 DEPS.update({"can_fuse_primitive_ops": ["is_fuse_candidate"],
              "can_fuse_multiple_primitive_ops": ["MemoryModeller.allocate", "MemoryModeller.free", "peak_projected_mem", "is_fuse_candidate"],
@@ -530,7 +553,8 @@ def translate_admission(name, repo):
     wiring (no definition, structural obligations): _finalize computes X = self._find_ops_exceeding_memory(dag) on the dag it
         hands to FinalizedPlan together with X; FinalizedPlan.__init__ stores `ops_exceeding_memory or []` in
         self._ops_exceeding_memory and no other method assigns it; the first statement of FinalizedPlan.execute is self.validate()"""
-    tree = ast.parse((Path(repo) / "cubed/core/plan.py").read_text())
+    in_plan = name in ("Plan._find_ops_exceeding_memory", "FinalizedPlan.validate", "admission.wiring", "already_computed", "resume.wiring")
+    tree = ast.parse((Path(repo) / "cubed/core/plan.py").read_text()) if in_plan else None
     U = ast.unparse
     if name == "Plan._find_ops_exceeding_memory":
         fn = _method(tree, "Plan", "_find_ops_exceeding_memory")
@@ -587,6 +611,40 @@ def translate_admission(name, repo):
         if not ex or U(ex[0]) != "self.validate()":
             raise TranslationError("FinalizedPlan.execute must call self.validate() first")
         return "(* admission.wiring: structural obligations on _finalize / FinalizedPlan.__init__ / execute hold *)\n"
+    if name == "Spec.__eq__":
+        stree = ast.parse((Path(repo) / "cubed/spec.py").read_text())
+        fn = _method(stree, "Spec", "__eq__")
+        b = _nodoc(fn.body)
+        if not ([a.arg for a in fn.args.args] == ["self", "other"] and len(b) == 1 and isinstance(b[0], ast.If) and U(b[0].test) == "isinstance(other, Spec)"
+                and len(b[0].body) == 1 and isinstance(b[0].body[0], ast.Return) and [U(x) for x in b[0].orelse] == ["return False"]):
+            raise TranslationError("Spec.__eq__: shape")
+        e = b[0].body[0].value
+        conj = e.values if isinstance(e, ast.BoolOp) and isinstance(e.op, ast.And) else [e]
+        FT = {"work_dir": "Nat.eqb", "intermediate_store": "Nat.eqb", "allowed_mem": "Z.eqb", "reserved_mem": "Z.eqb", "executor": "Nat.eqb",
+              "storage_options": "Nat.eqb", "zarr_compressor": "Nat.eqb"}
+        out = []
+        for c in conj:
+            if not (isinstance(c, ast.Compare) and len(c.ops) == 1 and isinstance(c.ops[0], ast.Eq)):
+                raise TranslationError("Spec.__eq__: conjunct is not an equality")
+            l, r = _chain(c.left), _chain(c.comparators[0])
+            if not (l and r and l[0] == "self" and r[0] == "other" and l[1] == r[1] and l[1] in FT):
+                raise TranslationError(f"Spec.__eq__: conjunct {U(c)}")
+            out.append(f"{FT[l[1]]} (SpecCfg.{l[1]} self) (SpecCfg.{l[1]} other)")
+        return "Definition gen_Spec_eq (self other : SpecCfg.spec) : bool :=\n  " + " && ".join(out) + ".\n"
+    if name == "check_array_specs":
+        atree = ast.parse((Path(repo) / "cubed/core/array.py").read_text())
+        fn = next((n for n in atree.body if isinstance(n, ast.FunctionDef) and n.name == "check_array_specs"), None)
+        if fn is None:
+            raise TranslationError("check_array_specs not found")
+        b = _nodoc(fn.body)
+        if not ([a.arg for a in fn.args.args] == ["arrays"] and len(b) == 3 and U(b[0]) == "specs = [a.spec for a in arrays if hasattr(a, 'spec')]"
+                and isinstance(b[1], ast.If) and not b[1].orelse and U(b[1].test) == "not all((s == specs[0] for s in specs))"
+                and len(b[1].body) == 1 and isinstance(b[1].body[0], ast.Raise) and U(b[1].body[0].exc.func) == "ValueError"
+                and U(b[2]) == "return arrays[0].spec"):
+            raise TranslationError("check_array_specs: shape")
+        # s == specs[0] is Spec.__eq__(s, specs[0]); Spec.__eq__ compares field by field, so the argument order is immaterial (gen_Spec_eq_equiv)
+        return ("Definition gen_check_array_specs (specs : list SpecCfg.spec) : option (option SpecCfg.spec) :=\n"
+                "  match specs with [] => Some None | s0 :: _ => if negb (forallb (fun s => gen_Spec_eq s0 s) specs) then None else Some (Some s0) end.\n")
     if name in ("skip_node", "visit_nodes", "visit_node_generations"):
         ptree = ast.parse((Path(repo) / "cubed/runtime/pipeline.py").read_text())
         fn = next((n for n in ptree.body if isinstance(n, ast.FunctionDef) and n.name == name), None)
@@ -968,7 +1026,7 @@ def check(names=None, repo=None, tag="all"):
     except Exception as e:
         return False, f"translation failed: {type(e).__name__}: {e}", ""
     text = ("(* GENERATED on every run from /repo by harness/translate.py - do not edit *)\n"
-            "From CubedV Require Import Model.Util Model.Memory Model.Rechunk Model.Regular Model.Dag Model.FuseGuard Model.Admission Model.Resume.\nLocal Open Scope Z_scope.\n\n" + "\n".join(defs))
+            "From CubedV Require Import Model.Util Model.Memory Model.Rechunk Model.Regular Model.Dag Model.FuseGuard Model.Admission Model.Resume Model.SpecCfg.\nLocal Open Scope Z_scope.\n\n" + "\n".join(defs))
     (gen / "Gen.v").write_text(text)
     (gen / "GenEquiv.v").write_text(GEN_HEADER + "".join(EQUIV[n] for n in order))
     for f in ("Gen.v", "GenEquiv.v"):
